@@ -30,6 +30,7 @@ def run(model, rep, tier):
     A(root_paths, model, rep)
     A(system_block, model, rep)
     A(version_gate, model, rep)
+    A(document_namespace, model, rep)
     from ..ctors import stored_is_used_rule
     A(stored_is_used_rule, model, rep, "R5")
 
@@ -508,3 +509,51 @@ def root_paths(model, rep):
     if kinds != {"Source", "PMux"}:
         raise AnalysisError("from_file: top-level paths build %s" % sorted(kinds))
     rep.instance("R1", "system.System.from_file top-level records: sources and mux", "%s:%d" % (rel, outer.lineno), ok, "%d paths" % len(leaves))
+
+
+# ------------------------------------------------------------------------------------------------ R6
+def document_namespace(model, rep):
+    """The saved document is one mapping.  Keys the writer fixes (the 'system' header) and keys it takes from component names share that
+    mapping, so a component carrying a fixed key's name overwrites the header (or is overwritten by it) and the file cannot be read back.
+    The two key sets are disjoint only if every path that admits a name (`_chk_name`, the constructor) rejects the fixed keys."""
+    rel = model.rel("system")
+    save = model.norm_method("System", "save")
+    doc, fixed = None, set()
+    for x in ast.walk(save):
+        if isinstance(x, ast.Assign) and len(x.targets) == 1 and isinstance(x.targets[0], ast.Name) and isinstance(x.value, ast.Dict) \
+                and x.value.keys and all(isinstance(k, ast.Constant) and isinstance(k.value, str) for k in x.value.keys) \
+                and any(k.value == "system" for k in x.value.keys):
+            doc, fixed = x.targets[0].id, {k.value for k in x.value.keys}
+    if doc is None:
+        raise AnalysisError("save(): the document mapping with its fixed header key is not found")
+    dyn = []
+    for x in ast.walk(save):
+        if isinstance(x, ast.Assign):
+            for t in x.targets:
+                if isinstance(t, ast.Subscript) and is_name(t.value, doc):
+                    if isinstance(t.slice, ast.Constant):
+                        fixed.add(t.slice.value)
+                    else:
+                        dyn.append(t)
+    if not dyn:
+        raise AnalysisError("save(): no component record is stored in the document mapping")
+    guarded = set()
+    for owner in ("_chk_name", "__init__"):
+        fn = model.own_method("System", owner)
+        if fn is None:
+            continue
+        for c in ast.walk(fn):
+            if isinstance(c, ast.Compare) and len(c.ops) == 1:
+                consts = [y.value for y in ast.walk(c) if isinstance(y, ast.Constant) and isinstance(y.value, str)]
+                for k in fixed:
+                    if k in consts and isinstance(c.ops[0], (ast.Eq, ast.NotEq, ast.In, ast.NotIn)):
+                        guarded.add((owner, k))
+    ok = True
+    for k in sorted(fixed):
+        if not all((o, k) in guarded for o in ("_chk_name", "__init__")):
+            ok = False
+            rep.violation("R6", "system.System.save", "%s:%d" % (rel, dyn[0].lineno),
+                          "the document mapping holds the fixed key '%s' and one key per source / mux name (%s), and no name check keeps a component from being "
+                          "called '%s': such a component replaces the header block and from_file() cannot read the file back" % (k, ast.unparse(dyn[0]), k),
+                          "document key '%s' shared with component names" % k)
+    rep.instance("R6", "system.System.save fixed document keys are not component names", "%s:%d" % (rel, save.lineno), ok, "%d fixed, %d name-keyed stores" % (len(fixed), len(dyn)))
